@@ -165,8 +165,16 @@ impl FraudProof for BadEncodingFraudProof {
 
         for (n, share) in rebuilt_shares.iter().enumerate() {
             let ns = if n < ods_width {
-                // safety: length must be correct
-                Namespace::from_raw(&share[..NS_SIZE]).unwrap()
+                // The reconstructed share doesn't need to hold a supported namespace,
+                // we only need its raw bytes to recompute the root.
+                match share
+                    .get(..NS_SIZE)
+                    .and_then(|raw| <[u8; NS_SIZE]>::try_from(raw).ok())
+                {
+                    Some(raw) => Namespace::new_unchecked(raw),
+                    // too short to be a share, befp is legit
+                    None => return Ok(()),
+                }
             } else {
                 Namespace::PARITY_SHARE
             };
